@@ -229,12 +229,79 @@ def move(ctx):
                 took = [a for a in lf.events[:i] if a[0] == "call" and last_seg(a[3]) == "take" and self_field(a[4][2][0], "pending_request")]
                 ctx.ob("R12.3", "pushed-is-pending-request", len(took) == 1, "the queued value is the pending request taken out of self", fn.loc(e[1]))
     ctx.ob("R12.3", "floor", n >= 1, "%d queueing site path(s) (floor 1)" % n)
-    # Request literals elsewhere start with no files
-    for f in ctx.facts.fns.values():
+    # The completion step *assigns* the list to the pending request's files: whatever that field held before is dropped
+    # (closed).  So until then it holds nothing: a Request under construction starts with an empty list, and the
+    # connection's list is taken only at completion (or cleared by the reset).
+    from ..core import Terms
+    from .util import roots_of
+    facts = ctx.facts
+    n_lit = 0
+    for f in facts.fns.values():
+        if f.d["span"]["file"] != "src/connection.rs":
+            continue
         for bi, si, place, rv in f.assigns():
             if rv["k"] == "aggregate" and rv.get("agg") == "adt" and rv["adt"] == "request::Request":
-                names = rv["fields"]
                 ctx.touched(f)
+                n_lit += 1
+                idx = rv["fields"].index("files") if "files" in rv["fields"] else None
+                if idx is None:
+                    nm = [x["name"] for x in facts.struct_fields("request::Request")]
+                    idx = nm.index("files")
+                x = look(Terms(f).operand(rv["ops"][idx]))
+                empty = x[0] == "call" and not x[2] and (last_seg(x[1]) in ("new", "default") and ("Vec" in x[1] or "Default" in x[1]))
+                at_completion = (roots_of(facts, f.name) or {f.name}) <= {name}
+                ctx.ob("R12.3", "request-under-construction|no-files|%s" % f.name.split("::")[-1], empty or at_completion, "a Request literal outside the completion step starts with an empty files list (here: %s)" % term_s(x)[:80], f.loc(bi, si))
+    ctx.ob("R12.3", "request-under-construction|floor", n_lit >= 1, "%d Request literal(s) in connection.rs inspected (floor 1)" % n_lit)
+    takers = 0
+    for f in facts.fns.values():
+        from .fields import mut_borrow_consumers
+        for site, bi, t in mut_borrow_consumers(f, conn.HC, "files"):
+            callee = (t["callee"].get("path") if t else None) or ""
+            seg = last_seg(callee)
+            if t is not None:
+                # handed to a helper that is not in the frozen list: what the helper does with it counts
+                from .util import local_callee, is_new_fn
+                from .fields import param_consumers
+                lc = local_callee(t)
+                if lc in facts.fns and is_new_fn(lc):
+                    g = facts.fns[lc]
+                    for i, a in enumerate(t["args"]):
+                        ty = g.locals[i + 1]["ty"] if i + 1 < len(g.locals) else {}
+                        if a["k"] in ("copy", "move") and not a["place"]["proj"] and ty.get("k") == "ref" and ty.get("mut"):
+                            inner = [last_seg((x["callee"].get("path") or "")) if x else "escapes" for x in param_consumers(g, i + 1)]
+                            tk = [x for x in inner if x in TAKING]
+                            if tk:
+                                seg = tk[0]
+            if seg in TAKING | {"append"} and not (seg == "append" and _is_receiver(f, t, site)):
+                takers += 1
+                roots = roots_of(facts, f.name) or {f.name}
+                ctx.ob("R12.3", "list-taken-only-at-completion-or-reset|%s|%s" % (f.name.split("::")[-1], seg), roots <= {name, conn.P + "reset_parser", conn.TRY_READ}, "self.files is emptied (%s) in %s on behalf of %s: only the completion step (moves it into the request) and the parser reset may do that" % (seg, f.name, sorted(roots)), f.loc(site[0], site[1]))
+    ctx.ob("R12.3", "list-taken|floor", takers >= 2, "%d sites that take or clear self.files (floor 2: completion, reset)" % takers)
+
+
+TAKING = {"drain", "take", "clear", "split_off", "truncate", "retain", "pop", "remove", "swap_remove", "replace", "swap"}
+
+
+def _is_receiver(f, t, site):
+    """is the `&mut self.files` taken at `site` the receiver (first argument) of the call t?  (`self.files.append(&mut new)` adds, `x.append(&mut self.files)` takes)"""
+    a0 = t["args"][0]
+    if a0["k"] not in ("copy", "move") or a0["place"]["proj"]:
+        return False
+    holders = set()
+    for bi, si, place, rv in f.assigns():
+        if (bi, si) == tuple(site) and not place["proj"]:
+            holders.add(place["local"])
+    changed = True
+    while changed:
+        changed = False
+        for bi, si, place, rv in f.assigns():
+            if place["proj"] or place["local"] in holders:
+                continue
+            if rv["k"] == "use" and rv["op"]["k"] in ("copy", "move") and not rv["op"]["place"]["proj"] and rv["op"]["place"]["local"] in holders:
+                holders.add(place["local"]); changed = True
+            elif rv["k"] in ("ref", "rawptr") and rv["place"]["local"] in holders and [e["k"] for e in rv["place"]["proj"]] == ["deref"]:
+                holders.add(place["local"]); changed = True
+    return a0["place"]["local"] in holders
 
 
 def apis(ctx):
